@@ -72,3 +72,43 @@ def obligations(facts, classes=None):
         if n == 0 or nvia == 0:
             out.append(ob("derived.field", "%s:%s" % (rec.split("::")[-1], fld), rec, "unrecognised", "derived field has %d definitions, %d through %s()" % (n, nvia, via)))
     return out
+
+
+REST_STATE = [
+    # class, private-constructor parameter, value a live object has between operations, reason
+    ("datasketches::var_opt_sketch", "m", 0, "the M region is transient: it is empty whenever no update is in progress, so an image (which stores h and r only) restores m = 0; a restored m = 1 makes the first heavy update throw"),
+    ("datasketches::var_opt_sketch", "filled_data", False, "the readers construct items only in the H and R regions: the gap slot is raw memory"),
+]
+
+
+def rest_state(facts):
+    """state that an image does not carry and that is not derived from it either: the readers hand the constructor the value a live
+    object has at rest (a literal), not something computed from image fields."""
+    fns = functions_by(facts)
+    out = []
+    for rec, pname, val, why in REST_STATE:
+        ctors = [f for f in fns.values() if f.get("rect") == rec and f["kind"] == "ctor" and any(p["n"] == pname for p in f["params"])]
+        if not ctors:
+            out.append(ob("derived.rest-state", "%s:%s:anchor" % (rec.split("::")[-1], pname), "", "unrecognised", "no constructor with a parameter `%s`" % pname, ""))
+            continue
+        ct = ctors[0]
+        pi = [i for i, p in enumerate(ct["params"]) if p["n"] == pname][0]
+        n = 0
+        for pat, fn in sorted(fns.items()):
+            if not fn["name"].startswith("deserialize") or fn.get("rect") not in (rec, None) and not (fn.get("rect") or "").startswith(rec):
+                continue
+            calls = []
+            walk(fn["body"], lambda x: calls.append(x) if x.get("k") == "Construct" and x.get("cpat") == ct["pat"] and len(x.get("args", [])) > pi else None)
+            for j, c in enumerate(calls):
+                n += 1
+                a = strip_all(c["args"][pi])
+                kind = "bytes" if fn["params"] and fn["params"][0]["t"].startswith("const void") else "stream"
+                key = "%s::%s(%s):%s-at-rest#%d" % (rec.split("::")[-1], fn["name"], kind, pname, j)
+                lit = (a.get("k") in ("Int", "Bool") or ("v" in a and a.get("k") == "Cast")) and (a.get("v", a.get("b")) == val or a.get("b") == val)
+                if lit:
+                    out.append(ob("derived.rest-state", key, c["loc"], "discharged", "%s restored as %s" % (pname, val), fn["qname"]))
+                else:
+                    out.append(ob("derived.rest-state", key, c["loc"], "violated", "the reader passes `%s` for `%s`, expected the rest value %s: %s" % (txt(a)[:50], pname, val, why), fn["qname"]))
+        if n == 0:
+            out.append(ob("derived.rest-state", "%s:%s:calls" % (rec.split("::")[-1], pname), ct["pat"], "unrecognised", "no reader constructs the object through this constructor", ""))
+    return out
